@@ -5,6 +5,8 @@ import (
 	"errors"
 	"time"
 
+	"github.com/gin-gonic/gin"
+
 	"github.com/ollama/ollama/api"
 	"github.com/ollama/ollama/discover"
 	"github.com/ollama/ollama/envconfig"
@@ -236,6 +238,18 @@ func vfClient(s *Scheduler, i int, nModels int, done chan int) {
 	}
 }
 
+// replacement for (*gin.Context).JSON: records what "ollama ps" would report
+var vfPsReports int
+
+func vfGinJSON(c *gin.Context, code int, obj any) {
+	vfPsReports++
+	if r, ok := obj.(api.ProcessResponse); ok {
+		for _, m := range r.Models {
+			verifAssert(m.Name != "", "ps-entry-has-a-model")
+		}
+	}
+}
+
 // VerifSched: nModels models, nReq concurrent requests, loaded-runner limit, queue length.
 func VerifSched(nModels int, nReq int, maxRunners int, queue int, flags int) {
 	vfServers, vfMaxRunners = nil, maxRunners
@@ -265,6 +279,13 @@ func VerifSched(nModels int, nReq int, maxRunners int, queue int, flags int) {
 	s.reschedDelay = 0
 	s.Run(ctx)
 
+	if flags&16 != 0 {
+		// a concurrent "ollama ps": the real PsHandler at a scheduler-chosen moment
+		go func() {
+			srv := &Server{sched: s}
+			srv.PsHandler(&gin.Context{})
+		}()
+	}
 	done := make(chan int, nReq)
 	if flags&8 != 0 {
 		// sequential history: each request starts after the previous one has finished
